@@ -577,7 +577,26 @@ def replay(case, params, v):
                 for i in range(N):
                     m[i, 1:3 + i % 3, 1:4] = True
                 d["mask"] = m
-            ds = dclab.new_dataset(d)
+            short = p.get("short")
+            n_min = N - 1 if short in p["feats"] else N
+            if p["format"] == "hdf5":
+                # a real HDF5 source (also with one feature shorter)
+                import dclab.rtdc_dataset.writer as Wm
+                Wm.version = "0.62.7"
+                src = os.path.join(td, "src.rtdc")
+                with Wm.RTDCWriter(src, mode="reset") as hw:
+                    hw.store_metadata({"experiment": {"event count": N},
+                                       "setup": {"channel width": 20.0}})
+                    for f, arr in d.items():
+                        hw.store_feature(f, arr[:N - 1] if f == short
+                                         else arr)
+                with h5py.File(src, "a") as h:
+                    h.attrs["experiment:event count"] = N
+                ds = dclab.new_dataset(src)
+            else:
+                ds = dclab.new_dataset(d)
+                if short in d:
+                    ds._events[short] = d[short][:N - 1]
             if p["format"] != "hdf5":
                 # event-wise (non-sliceable) access, as for tdms / DCOR /
                 # lazily computed image stacks
@@ -595,13 +614,22 @@ def replay(case, params, v):
                         return self.arr[i]
                 for f in ("image", "mask"):
                     if f in ds._events:
-                        ds._events[f] = LazyStack(d[f])
+                        ds._events[f] = LazyStack(
+                            d[f][:N - 1] if f == short else d[f])
             ds.filter.manual[:] = bits
             ds.apply_filter()
             feats = [f for f in p["feats"] if f in d]
             path = os.path.join(td, "o.rtdc")
-            ds.export.hdf5(path, features=feats, filtered=p["filtered"])
-            sel = [i for i in range(N) if bits[i] or not p["filtered"]]
+            try:
+                ds.export.hdf5(path, features=feats, filtered=p["filtered"])
+            except Exception as e:
+                return {"reproduced": True, "key": "Export.hdf5|raises",
+                        "detail": "export of %r (filtered=%s, %s source, "
+                        "short=%s) raises %s: %s" % (
+                            feats, p["filtered"], p["format"], short,
+                            type(e).__name__, e)}
+            sel = [i for i in range(n_min)
+                   if bits[i] or not p["filtered"]]
             with h5py.File(path, "r") as h:
                 ev = h.get("events", {})
                 for f in set(feats):
